@@ -281,6 +281,8 @@ class BasePort(logging_utils.LoggableMixin, metaclass=abc.ABCMeta):
             pass
         self._reading: bool = False
         self._writing: bool = False
+        # Serializes the writer task with the direct write done while loading persisted data
+        self._write_lock: asyncio.Lock = asyncio.Lock()
 
         self._eval_queue: asyncio.Queue = asyncio.Queue(maxsize=self.WRITE_VALUE_QUEUE_SIZE)
         self._eval_task: Optional[asyncio.Task] = None
@@ -796,7 +798,8 @@ class BasePort(logging_utils.LoggableMixin, metaclass=abc.ABCMeta):
                 self._writing = True
 
                 try:
-                    result = await self.write_value(value)
+                    async with self._write_lock:
+                        result = await self.write_value(value)
                     done.set_result(result)
                 except Exception as e:
                     done.set_exception(e)
@@ -1018,7 +1021,9 @@ class BasePort(logging_utils.LoggableMixin, metaclass=abc.ABCMeta):
                         write = False
 
                 if write:
-                    await self.write_value(value)
+                    # Prevent overlapping with a write issued by the writer task
+                    async with self._write_lock:
+                        await self.write_value(value)
         elif self.is_enabled():
             try:
                 value = await self.read_transformed_value()
